@@ -51,12 +51,17 @@ class ServerRun:
                         client.send(b"echo")
                     elif a.startswith("disc"):
                         client.disconnect()
-                    elif a == "kick":
-                        # "player left: kick the opponents" - used in the shutdown phase only, where the model needs no notion of it
-                        # (every pool entry gets its disconnect event whatever its status, and nothing is sent any more)
+                    elif a == "kick" and not run.ctxt._active:
+                        # "player left: kick the opponents" - in the shutdown phase only, where the model needs no notion of it (every
+                        # pool entry gets its disconnect event whatever its status, and nothing is sent any more); while the loop runs
+                        # "kick" is a no-op in the per-client handlers, on both sides
                         for other in list(run.ctxt.connections.values()):
                             if other is not client:
                                 other.disconnect()
+                elif a == "kick":
+                    # handler.update: "end of the round", every connected client is disconnected by the server (model: kickAll)
+                    for c in list(run.ctxt.connections.values()):
+                        c.disconnect()
                 if a.endswith("aise"):
                     raise RuntimeError("handler script: raise in " + what)
 
@@ -502,13 +507,20 @@ def gen_server_case(real, rng, cid, n_iter=50, n_clients=3, hostile=0.3, mtu=150
                     if rng.random() < 0.4:
                         d = d[:rng.choice([len(d) - 1, len(d) - 40, 200, 30])]
                     addr = (str(rng.choice([66, 92, 93, 94])), rng.randint(1, 3))
+                    fresh = [c for c in clients.values() if c and c["born"] is not None and k - c["born"] <= 3]
+                    if fresh and rng.random() < 0.5:
+                        # ... or forged in the name of a client whose handshake is in flight: a complete, CRC-valid hello with another
+                        # key from the (spoofed) address of a half-open connection
+                        addr = rng.choice(fresh)["addr"]
                 items.append((addr, d, d.hex() or "-"))
             items = [(a, real.craft(sp, True) if d is None else d, sp) for a, d, sp in items]
             rng.shuffle(items)
             for addr, _d, spec_s in late:
                 items.append((addr, real.craft(spec_s, True), spec_s))
             # keep at most one genuine datagram per address and iteration in front of its duplicates (oracle association)
-            acts = [rng.choice(["raise", "echo", "disc", "echoRaise", "discRaise"]) if rng.random() < act_p else "ok" for _ in range(40)]
+            acts = [rng.choice(["raise", "echo", "disc", "echoRaise", "discRaise", "kick"]) if rng.random() < act_p else "ok" for _ in range(40)]
+            if act_p > 0 and rng.random() < 0.02:
+                acts = ["kick"] * 40         # whatever handler calls come first (no-ops), handler.update ends the round
             if kick:
                 # the handler disconnects every client it hears from in this iteration
                 acts = [rng.choice(["disc", "disc", "discRaise"]) for _ in range(40)]
@@ -585,6 +597,29 @@ def gen_server_case(real, rng, cid, n_iter=50, n_clients=3, hostile=0.3, mtu=150
     outs.append("ev=%s" % ",".join(srv.shutdown_events))
     lines.append("end")
     return lines, outs, records, log
+
+
+def halfopen_monitor(case, recs, ctx):
+    """C01 at the server loop: a datagram that is not sealed under the session key of a half-open connection does not replace or alter
+    that connection - same object, same key, same token after an iteration in which nothing genuine arrived from its address (it may be
+    promoted or expire, not be swapped)"""
+    prev = {}
+    for i, rec in enumerate(recs):
+        view = rec.get("view", {})
+        genuine = set("%s:%d" % addr for (addr, d, spec), ok in zip(rec["items"], rec["accepted"]) if spec.startswith(("@", "!")))
+        for a, was in prev.items():
+            now = view.get(a)
+            if was["pool"] != "temps" or now is None or a in genuine:
+                continue
+            if now["oid"] != was["oid"] or (now["pool"] == "temps" and (now["key"] != was["key"] or now["token"] != was["token"])):
+                forged = [spec[:48] for (addr, d, spec), ok in zip(rec["items"], rec["accepted"]) if "%s:%d" % addr == a]
+                ctx.failure("halfopen-connection-replaced", "iteration %d: the half-open connection of %s (object %d, token %d) was %s although "
+                            "nothing sealed under its key arrived from that address (datagrams from it in this iteration: %s)" %
+                            (i, a, was["oid"], was["token"], "replaced by object %d" % now["oid"] if now["oid"] != was["oid"] else
+                             "given another key/token", forged), {"case": case, "at": len(case) - 2, "iteration": i})
+                return True
+        prev = view
+    return False
 
 
 def udp_server_entry(real, items, block, mode):
